@@ -451,6 +451,15 @@ pub fn dispatch(m: &mut Machine, name: &str, args: &[&str]) -> Option<R> {
             m.put(s, Obj::Hash(c));
             Ok("-".into())
         })(),
+        // hwhere <slot>: address of the context object modulo 64 (coverage report of the placement letters, never compared)
+        "hwhere" => (|| {
+            need(args, 1)?;
+            let s = arg_slot(args[0])?;
+            match m.slots.get(s) {
+                Some(Some(Obj::Hash(h))) => Ok(format!("{}", (&**h as *const dyn HCtx as *const u8 as usize) % 64)),
+                _ => Ok("ABSENT".into()),
+            }
+        })(),
         "update" => (|| {
             need(args, 2)?;
             let s = arg_slot(args[0])?;
